@@ -43,6 +43,7 @@ class Explorer:
         self.callers = []
         self.h2 = cfg.get("http2", False)
         self.peers = []
+        self.steplog = []             # per step: (callers done so far, ids of pooled connections)
 
     # ---- world ----------------------------------------------------------------------------------
     def peer_factory(self, rec):
@@ -349,6 +350,7 @@ async def random_schedule(ex, spawn, settle):
             p.server_closed = True
             ex.trace.append(("srvclose", ex.peers.index(p)))
         await settle()
+        ex.steplog.append(({c.idx for c in ex.callers if c.state == "done"}, [id(c) for c in ex.pool.connections]))
         ex.check_quiescent(len(ex.trace))
         if not to_spawn and all(c.state == "done" for c in ex.callers):
             break
@@ -481,6 +483,17 @@ def signature_of(clause, detail, cfg, ex):
     if clause in ("C05:capacity-lost", "C07:caller-blocked-forever"):
         snap = detail.get("snapshot", {})
         sig["conn_states"] = sorted(set(state_of(i) for i in snap.get("conns", [])))
+        # how many callers left in the very step in which the orphaned connection appeared in the pool?
+        limbo_ids = [id(c) for c in ex.pool.connections if not (c.is_idle() or c.is_closed() or c.has_expired())]
+        exits = None
+        for lid in limbo_ids:
+            prev_done, prev_ids = set(), []
+            for done, ids in ex.steplog:
+                if lid in ids and lid not in prev_ids:
+                    exits = len(done - prev_done)
+                    break
+                prev_done, prev_ids = done, ids
+        sig["exits_in_creation_step"] = "unknown" if exits is None else ("2+" if exits >= 2 else str(exits))
         if any(t[0] == "tick" for t in ex.trace) and sig["trigger"] in ("none", "fault", "cancel"):
             sig["trigger"] = "pool-timeout-or-" + sig["trigger"] if sig["trigger"] != "none" else "pool-timeout"
     return sig
